@@ -1,6 +1,7 @@
 package hx
 
 import (
+	"context"
 	"crypto/sha256"
 	"encoding/hex"
 	"fmt"
@@ -55,6 +56,7 @@ type Node struct {
 	Link     string // connected | disconnected
 	Loading  bool
 	LinkDown bool // master_link_status:down in INFO
+	Paused   bool // the node does not read from its connections (back-pressure)
 	Short    bool // render a line with too few columns
 	Migr     bool // append a migration marker column
 	ln       *net.TCPListener
@@ -94,7 +96,13 @@ func NewCluster(cfg *Config, log *EventLog) (*Cluster, error) {
 		m = 3
 	}
 	mk := func(name, role, masterOf string) (*Node, error) {
-		ln, err := net.Listen("tcp", "127.0.0.1:0")
+		lc := net.ListenConfig{}
+		if cfg.SmallBuf {
+			lc.Control = func(network, address string, c syscall.RawConn) error {
+				return c.Control(func(fd uintptr) { _ = unix.SetsockoptInt(int(fd), unix.SOL_SOCKET, unix.SO_RCVBUF, 8192) })
+			}
+		}
+		ln, err := lc.Listen(context.Background(), "tcp", "127.0.0.1:0")
 		if err != nil {
 			return nil, err
 		}
@@ -319,6 +327,9 @@ func (cl *Cluster) readLoop(nc *NodeConn) {
 func (cl *Cluster) pumpLocked(nc *NodeConn, fd int) bool {
 	if nc.Closed || nc.PeerEOF {
 		return true
+	}
+	if nc.node.Paused {
+		return false
 	}
 	tmp := make([]byte, 65536)
 	for {
@@ -889,5 +900,56 @@ func (cl *Cluster) Publish(desc []NodeDesc, reply string) {
 		cl.RawTopo = respx.Bulk(strings.Repeat(cl.DefaultTopo(), 1+163840/(len(cl.DefaultTopo())+1)) + cl.DefaultTopo())
 	default:
 		cl.RawTopo = nil
+	}
+}
+
+// ReadSome lets a paused node read at most max bytes from its connections (a partial drain).
+func (cl *Cluster) ReadSome(name string, max int) int {
+	cl.mu.Lock()
+	defer cl.mu.Unlock()
+	n := cl.byName[name]
+	if n == nil {
+		return 0
+	}
+	total := 0
+	for _, nc := range n.Conns {
+		if nc.Closed || nc.PeerEOF || nc.Admin {
+			continue
+		}
+		nc := nc
+		_ = nc.rc.Control(func(fd uintptr) {
+			for total < max {
+				want := max - total
+				if want > 65536 {
+					want = 65536
+				}
+				tmp := make([]byte, want)
+				k, err := unix.Read(int(fd), tmp)
+				if k > 0 {
+					nc.buf = append(nc.buf, tmp[:k]...)
+					nc.NRecv += k
+					total += k
+					continue
+				}
+				if err == unix.EINTR {
+					continue
+				}
+				break
+			}
+		})
+		cl.processLocked(nc)
+	}
+	return total
+}
+
+// SetPaused stops / resumes reading on a node.
+func (cl *Cluster) SetPaused(name string, p bool) {
+	cl.mu.Lock()
+	if n := cl.byName[name]; n != nil {
+		n.Paused = p
+	}
+	cl.mu.Unlock()
+	if !p {
+		cl.Pump()
 	}
 }
